@@ -6,7 +6,7 @@ From Chum Require Import Corollaries.
 Theorem C03_output_means_whole_input :
   forall K toks spn n m g ov errs,
     run_top no_quirks K toks spn (S n) m g = TRes (Some ov) errs ->
-    exists v' p' ems a', sem K toks spn n g VUnit 0 None = Some (Some (v', p', ems), a') /\
+    exists v' p' ems a', sem K toks spn n g env0 0 None = Some (Some (v', p', ems), a') /\
                          nth_error toks p' = None /\ ov = bindv m v'.
 Proof. exact parse_complete. Qed.
 
